@@ -637,7 +637,7 @@ def run_shard(spec, ctx):
                                       "operators": ops_used, "base": base, "outcome": outcome, "detail": detail})
                      if seen[0] > 30 and seen[0] % 11 == 0 else None)
 
-        run_given(case_params, body, ctx, ctx.pick(1600, 20000))
+        run_given(case_params, body, ctx, ctx.pick(1600, 150000))
     finally:
         shutil.rmtree(tmp, ignore_errors=True)
 
